@@ -143,7 +143,7 @@ func init() {
 		return Val{T: tString, Term: args[0].Term}, nil
 	}
 	specFuncs["fresh"] = func(e *Exec, env *Env, args []Val) (Val, error) {
-		return Val{T: tBool, Term: app(">", e.refOfVal(args[0]), e.allocCtr(env.old))}, nil
+		return Val{T: tBool, Term: app(">", e.writeTargetRef(args[0]), e.allocCtr(env.old))}, nil
 	}
 }
 
@@ -352,7 +352,11 @@ func (e *Exec) setOwnerRefs(cc *callCtx) Val {
 	n, so := e.arrName(et)
 	row := e.fresh(cc.f.prefix+"ownrow", "(Array Int "+es+")")
 	src := Select(e.comp(st, n, so), app("s_base", s))
-	e.assume(fmt.Sprintf("(forall ((iq Int)) (! (= (select %s iq) (select %s (+ %s iq))) :pattern ((select %s iq))))", row, src, app("s_off", s), row), "SetOwnerReferences copies the slice")
+	{
+		off := app("s_off", s)
+		e.assumeForallInt("true", func(i Term) Term { return Eq(Select(row, i), Select(src, app("+", off, i))) },
+			func(i Term) Term { return Select(row, i) }, "SetOwnerReferences copies the slice")
+	}
 	e.setComp(st, "OM_owners_arr", as, Store(arr, r, row))
 	e.setComp(st, "OM_owners_len", ls, Store(ln, r, app("s_len", s)))
 	// the controller reference view changes with the list
